@@ -12,7 +12,7 @@ ASSUME = [
 def check(run: Run):
     q = run.quick
     run.spec_files("Partition.tla", "PartitionGen.tla", "PartitionTrace.tla")
-    letters = ["a", "A", "_", "s"] if q else ["a", "A", "b", "_", "s", "p"]
+    letters = ["a", "A", "_", "s", " "] if q else ["a", "A", "b", "_", "s", "p", " "]   # the blank: ids are opaque, nothing may trim them
     consts = {"Letters": tla_set(letters), "MaxLen": 2 if q else 3, "Service": "<- Svc", "Product": "<- Prd", "Regions": "<- Rgs",
               "SampleEvery": 1 if q else 40}
     run.write("GEN.cfg", cfg_text("GSpec", consts, invs=["Isolation", "OwnAccepted", "CrossRegionAccepted", "KindsDisjoint"]))
